@@ -13,7 +13,7 @@ import alg
 from alg import Expr, ZERO, ONE, as_expr
 from front import AnalysisError
 import interp as I_
-from interp import Arr, SymArr, Tup, Unknown, BOT, Opaque, FuncRef, ModRef, Pred, BoolCombo, Member, SliceV, RangeV, LevelStore
+from interp import Arr, SymArr, Tup, Unknown, BOT, Opaque, FuncRef, ModRef, Pred, BoolCombo, Member, SliceV, RangeV, LevelStore, PyList, SetV
 
 
 class Spec:
@@ -633,6 +633,13 @@ def method(I, f, args, kwargs, node):
         if name == "pop":
             return b.items.pop() if b.items else Unknown("pop")
         return Unknown("tuple method %s" % name)
+    if isinstance(b, SetV):
+        if name == "pop":
+            return b.items.pop() if b.items else Unknown("pop from an empty set")
+        if name == "add":
+            b.items = I.make_set(b.items + [args[0]]).items
+            return None
+        return Unknown("set method %s" % name)
     if isinstance(b, str):
         return "<str>"
     if isinstance(b, Opaque):
@@ -665,6 +672,10 @@ def builtin(I, name, args, kwargs, node, env):
             return alg.const(len(x)) if not x.startswith("<") else Unknown("len of str")
         if isinstance(x, Opaque) and "of" in x.attrs and isinstance(x.attrs["of"], Arr):
             return x.attrs["of"].shape[0]
+        if isinstance(x, PyList):
+            return x.length
+        if isinstance(x, SetV):
+            return alg.const(len(x.items))
         return Unknown("len of %r" % (x,))
     if name == "int":
         x = args[0]
@@ -731,7 +742,7 @@ def builtin(I, name, args, kwargs, node, env):
         x, t = args
         tn = t.dotted if isinstance(t, FuncRef) else None
         if tn == "list":
-            return isinstance(x, Tup) and x.kind == "list"
+            return isinstance(x, PyList) or (isinstance(x, Tup) and x.kind == "list")
         if tn == "tuple":
             return isinstance(x, Tup) and x.kind == "tuple"
         if tn == "str":
@@ -764,8 +775,16 @@ def builtin(I, name, args, kwargs, node, env):
         return I.getattr(args[0], args[1], node) if isinstance(args[1], str) else Unknown("getattr")
     if name == "round":
         return alg.fn("round", args[0]) if isinstance(args[0], Expr) else Unknown("round")
-    if name in ("dict", "set"):
-        return Tup([], "dict" if name == "dict" else "list")
+    if name == "set":
+        if not args:
+            return SetV([])
+        if isinstance(args[0], Tup) and args[0].kind != "dict":
+            return I.make_set(args[0].items)
+        if isinstance(args[0], SetV):
+            return SetV(args[0].items)
+        return Unknown("set(%r)" % (args[0],))
+    if name == "dict":
+        return Tup([], "dict")
     return Unknown("builtin %s" % name)
 
 
